@@ -24,6 +24,9 @@ def strip_line(name):
 
 def generate(unit):
     """-> (engine, obligations, info).  Raises NotGenerated / Undecided."""
+    import itertools
+    from . import values as _vals
+    _vals._cnt = itertools.count()      # fresh names are numbered per unit: queries do not depend on which units ran before
     fn, text = find_def(unit.module, unit.qualname)
     if unit.slice is not None:
         stmts, label = unit.slice(fn)
@@ -148,7 +151,9 @@ def discharge(o, want_smt2=False, both=False):
             smt2 = s_.to_smt2()
         except Exception:
             smt2 = None
-    if (r == z3.unknown or both) and smt2:
+    if (r == z3.unknown or both) and smt2 and "(lambda " in smt2:
+        res["cvc5"] = "skipped (z3 lambda terms are outside cvc5's input language)"
+    elif (r == z3.unknown or both) and smt2:
         t1 = time.time()
         c = run_cvc5(smt2, CVC5_TIMEOUT_MS)
         res["cvc5"] = c
@@ -189,26 +194,18 @@ def register(units):
     return units
 
 
-def verify_unit_key(args):
-    key, both = args
+_ALL = []     # obligations of the current run; filled before the discharge pool is forked so that children inherit the z3 terms
+
+
+def _generate_unit(key):
     unit = REGISTRY[key]
     t0 = time.time()
     out = {"unit": key, "props": list(unit.props), "obligations": [], "undecided": None, "info": {}, "note": unit.note}
+    obligs = []
     try:
         eng, obligs, info = generate(unit)
         out["unit_name"] = unit.name
         out["info"] = info
-        first = True
-        for o in obligs:
-            r = discharge(o, want_smt2=first and o.kind != "cover", both=both)
-            if o.kind != "cover":
-                first = False
-            if r["status"] == "refuted" and unit_replay(unit):
-                try:
-                    r["replay"] = unit_replay(unit)(unit, o, r)
-                except Exception as ex:  # replay problems never turn into a verdict
-                    r["replay"] = {"reproduced": False, "error": repr(ex)}
-            out["obligations"].append(r)
     except NotGenerated as ex:
         out["undecided"] = f"not-generated: {ex}"
     except Undecided as ex:
@@ -218,18 +215,64 @@ def verify_unit_key(args):
     except Exception as ex:
         out["undecided"] = "engine-error: " + "".join(traceback.format_exception_only(type(ex), ex)).strip()
         out["traceback"] = traceback.format_exc()[-2000:]
-    out["wall_s"] = round(time.time() - t0, 3)
-    return out
+    out["gen_s"] = round(time.time() - t0, 3)
+    return out, obligs
+
+
+def _discharge_idx(i):
+    o, want, both = _ALL[i]
+    try:
+        return discharge(o, want_smt2=want, both=both)
+    except Exception as ex:
+        return {"name": o.name, "kind": o.kind, "line": o.line, "backend": "z3", "time_s": 0, "status": "undecided", "reason": "discharge crashed: " + repr(ex)}
+
+
+def verify_units(keys, both=False, procs=None):
+    """generation is sequential in this process (fast); all obligations of all units are then discharged in one
+    fork()ed pool, one obligation per task"""
+    global _ALL
+    outs = []
+    _ALL = []
+    spans = []
+    for key in keys:
+        out, obligs = _generate_unit(key)
+        first = True
+        lo = len(_ALL)
+        for o in obligs:
+            want = first and o.kind != "cover"
+            if o.kind != "cover":
+                first = False
+            _ALL.append((o, want, both))
+        spans.append((lo, len(_ALL)))
+        outs.append(out)
+    n = len(_ALL)
+    procs = procs or min(16, max(1, n))
+    t0 = time.time()
+    if procs == 1 or n <= 1:
+        results = [_discharge_idx(i) for i in range(n)]
+    else:
+        ctx = mp.get_context("fork")
+        with ctx.Pool(procs) as pool:
+            results = pool.map(_discharge_idx, range(n), chunksize=1)
+    for out, (lo, hi), key in zip(outs, spans, keys):
+        unit = REGISTRY[key]
+        for i in range(lo, hi):
+            r = results[i]
+            if r["status"] == "refuted" and unit_replay(unit):
+                try:
+                    r["replay"] = unit_replay(unit)(unit, _ALL[i][0], r)
+                except Exception as ex:  # replay problems never turn into a verdict
+                    r["replay"] = {"reproduced": False, "error": repr(ex)}
+            out["obligations"].append(r)
+        out["wall_s"] = round(out.get("gen_s", 0) + sum(r.get("time_s", 0) for r in out["obligations"]), 3)
+    _ALL = []
+    return outs
+
+
+def verify_unit_key(args):
+    key, both = args
+    return verify_units([key], both=both, procs=1)[0]
 
 
 def unit_replay(unit):
     return getattr(unit, "replay", None)
-
-
-def verify_units(keys, both=False, procs=None):
-    procs = procs or min(16, max(1, len(keys)))
-    if procs == 1 or len(keys) == 1:
-        return [verify_unit_key((k, both)) for k in keys]
-    ctx = mp.get_context("fork")
-    with ctx.Pool(procs) as pool:
-        return pool.map(verify_unit_key, [(k, both) for k in keys], chunksize=1)
